@@ -81,6 +81,7 @@ SPECS = {
     },
     "C10": {
         "scenarios": [{"name": "offpolicy", "runs": {"quick": 240, "thorough": 1000000}, "chunks": {"quick": 2, "thorough": 2}},
+                      {"name": "collect_on", "runs": {"quick": 60, "thorough": 1000000}, "chunks": {"quick": 1, "thorough": 1}},
                       {"name": "train", "runs": {"quick": 16, "thorough": 1000000}, "chunks": {"quick": 1, "thorough": 1}},
                       {"name": "peers", "runs": {"quick": 40, "thorough": 1000000}, "chunks": {"quick": 1, "thorough": 1}}],
         "budget_s": {"quick": 600, "thorough": 1200},
